@@ -4,7 +4,7 @@
    checkSharing probes; the model, fed the same operations (allocation results
    as checked choices), must agree on all of them. *)
 From Coq Require Import List NArith ZArith Bool.
-From Verif Require Export Model.Alloc.
+From Verif Require Export Model.Alloc Model.AllocRef.
 Import ListNotations.
 Local Open Scope N_scope.
 
@@ -43,11 +43,34 @@ Definition obs_ok (universe : list svc) (a : st) (r : res) (o : obs) : bool :=
 Definition normalize (o : op) (ob : option (list ip)) : option (list ip) :=
   match o with OUnassign _ | OSetPools _ => Some [] | _ => ob end.
 
+(* the transcription of the selection algorithm (Model/AllocRef.v, proved to refine
+   [allocate_spec]) run next to the implementation: with the chosen pool moved to
+   the front of the unobservable map order it must return exactly the pool and
+   the addresses the implementation returned, and fail exactly when it failed *)
+Definition same_choice (x : option (poolid * list ip)) (pn : poolid) (ips : list ip) : bool :=
+  match x with Some (pn', ips') => (pn =? pn') && ips_eqb ips ips' | None => false end.
+Definition ref_ok (a : st) (o : op) : bool :=
+  match o with
+  | OAllocate s r c =>
+      match get_alloc a s with
+      | Some _ => true
+      | None =>
+          match c with
+          | None => match allocate_ref_with a s r (fun l => l) with None => true | Some _ => false end
+          | Some (pn, ips) =>
+              same_choice (allocate_ref_with a s r (prefer pn)) pn ips ||
+              same_choice (allocate_ref_with a s r (prefer_last pn)) pn ips
+          end
+      end
+  | _ => true
+  end.
+
 Fixpoint run (universe : list svc) (a : st) (steps : list (op * obs)) : bool :=
   match steps with
   | [] => true
   | (o, ob) :: rest =>
       let '(a', r) := step a o in
+      ref_ok a o &&
       obs_ok universe a' r {| ob_res := normalize o (ob_res ob); ob_allocs := ob_allocs ob;
                               ob_counters := ob_counters ob; ob_probes := ob_probes ob |}
       && run universe a' rest
@@ -59,7 +82,7 @@ Fixpoint first_bad (universe : list svc) (a : st) (steps : list (op * obs)) (i :
   | [] => None
   | (o, ob) :: rest =>
       let '(a', r) := step a o in
-      if obs_ok universe a' r {| ob_res := normalize o (ob_res ob); ob_allocs := ob_allocs ob;
+      if ref_ok a o && obs_ok universe a' r {| ob_res := normalize o (ob_res ob); ob_allocs := ob_allocs ob;
                                  ob_counters := ob_counters ob; ob_probes := ob_probes ob |}
       then first_bad universe a' rest (i + 1) else Some i
   end.
